@@ -25,6 +25,7 @@ import (
 	"reduction.dev/reduction/proto/jobpb"
 	"reduction.dev/reduction/proto/snapshotpb"
 	"reduction.dev/reduction/proto/workerpb"
+	"reduction.dev/reduction/rpc"
 	"reduction.dev/reduction/storage/locations"
 	"reduction.dev/reduction/workers/operator"
 	"reduction.dev/reduction/workers/sourcerunner"
@@ -647,6 +648,7 @@ func (a *opAd) HandleEventBatch(ctx context.Context, b []*workerpb.Event) error 
 	if w == nil {
 		return errors.New("verif: operator unreachable")
 	}
+	var kinds []byte
 	for _, e := range b {
 		se := StreamEv{Tick: lib.Tick.Add(1), Operator: a.node.Id, Sender: a.sender}
 		switch ev := e.Event.(type) {
@@ -669,12 +671,17 @@ func (a *opAd) HandleEventBatch(ctx context.Context, b []*workerpb.Event) error 
 		a.c.mu.Lock()
 		a.c.stream = append(a.c.stream, se)
 		a.c.mu.Unlock()
-		if err := w.Op.HandleEvent(ctx, a.sender, e); err != nil {
-			a.c.mu.Lock()
-			a.c.edgeErrs = append(a.c.edgeErrs, fmt.Sprintf("HandleEvent(%s -> %s, %c): %v", a.sender, a.node.Id, se.Kind, err))
-			a.c.mu.Unlock()
-			return err
-		}
+		kinds = append(kinds, se.Kind)
+	}
+	// The batch enters the operator the way it does in a real deployment: through the repository's own
+	// client for an operator of the same process (the connect handler does the same per request). The
+	// stream records the batch in order before it is handed over; per-sender order is what the oracles use.
+	cl := rpc.NewOperatorEmbeddedClient(rpc.NewOperatorEmbeddedClientParams{Operator: w.Op, SenderID: a.sender, Host: a.node.Host, ID: a.node.Id})
+	if err := cl.HandleEventBatch(ctx, b); err != nil {
+		a.c.mu.Lock()
+		a.c.edgeErrs = append(a.c.edgeErrs, fmt.Sprintf("HandleEvent(%s -> %s, %s): %v", a.sender, a.node.Id, string(kinds), err))
+		a.c.mu.Unlock()
+		return err
 	}
 	return nil
 }
